@@ -6,8 +6,13 @@ open Lean
 namespace KinModel.Drv.C12
 open KinModel.Drv KinModel.Schema
 
+/-- field, pointer, quoted value (the reason fragments are C19's) -/
+def errJsonLoc (e : Err) : Json :=
+  Json.mkObj ([("field", Json.str e.field), ("pointer", jstrs (e.pointer.map tokStr))] ++
+              (match e.value with | some v => [("value", fromJ v)] | none => []))
+
 def outJson (inj : Bool) (o : Res × J) : Json :=
-  Json.mkObj ([("ok", Json.bool o.1.isOk), ("errs", Json.arr (o.1.errs.map errJson).toArray)] ++
+  Json.mkObj ([("ok", Json.bool o.1.isOk)] ++ (if o.1.errs.isEmpty then [] else [("errs", Json.arr (o.1.errs.map errJsonLoc).toArray)]) ++
               (if inj then [("after", fromJ o.2)] else []))
 
 /-- request: {schema, value, regex, formats, ctx, dfl, …}; reply: the model's report in each of the four modes (with the
